@@ -448,7 +448,7 @@ def flushPhases : List Phase :=
     flushAddedIPSets, flushIPSetDeltas, flushPolicyUpdates, flushProfileUpdates, flushEndpointTierUpdates,
     flushEndpointTierDeletes, flushProfileDeletes, flushPolicyDeletes, flushRemovedIPSets,
     flushGen .sa, flushGen .ns,
-    flushRouteRemoves, flushVTEPRemoves, flushVTEPAdds, flushRouteAdds,
+    flushRouteRemoves, flushVTEPAdds, flushRouteAdds, flushVTEPRemoves,
     flushWgDeletes, flushWgUpdates,
     flushGen .host, flushGen .pool,
     flushEncap, flushBGP,
